@@ -5,3 +5,5 @@ def f(a, (b, c)):
     print >>a, `b`, c
     exec 'x=1' in {}
     return a <> b
+# unicode constants with control characters, quotes and a backslash (their repr must stay on one listing row)
+UC = (u'%s\n', u"it's", u'tab\there', u'back\\slash', u'both \' and "', u'\r\n')
